@@ -249,34 +249,39 @@ theorem C01_main_partial (lenient : Bool) (prog env : Tree) (h1 : OneStep prog) 
     (hr : adaptedRun lenient (fuel' + 2) prog env budget = some ro) : SameOutcome mo ro :=
   one_step_agree lenient prog env h1 budget fuel fuel' mo ro hm hr
 
-/-- **`C01_main_core_partial`**: whole programs, every 64-bit budget (`0` = unlimited), any fuel on
-either side.  The reference runs with all consensus adapters and operand lists read like the Python
-(`coreAd`).  Its *domain* is restricted by `Adapter.coreFragment` — a run that evaluates a `((X) …)`
-form or applies opcode 36 is outside — and by `Adapter.restrictCalls exclCall` — so is a call of an
-unknown operator inside the region of finding B (cost product `base · (multiplier + 1) ≥ 2^64`, where
-the pre-hard-fork `op_unknown` wraps); the operators assigned by later consensus changes (29, 30,
-48–61, the 4-byte secp opcodes) are outside C01 as before.
+/-- **`C01_main_lenient_partial`**: whole programs, every 64-bit budget (`0` = unlimited), any fuel on
+either side, against the adapted reference with the **lenient** reading of operand lists
+(`Adapter.lenientOperandLists`, i.e. what the crate does — finding `C01-lenient-lists` — so that the
+`((X) . operands)` form is inside).  The only restrictions of the reference's *domain* are
+`Adapter.noGuards` — a run that applies opcode 36 (softfork guards) is outside — and
+`Adapter.restrictCalls exclCall` — so is a call of an unknown operator inside the region of finding B
+(cost product `base · (multiplier + 1) ≥ 2^64`, where the pre-hard-fork `op_unknown` wraps); the
+operators assigned by later consensus changes (29, 30, 48–61, the 4-byte secp opcodes) are outside
+C01 as before.
 Whenever both machines terminate they succeed with the same cost and the same tree, or both fail —
 unless the reference left that domain or hit the adapted stack limit (`BadR`), or the model hit an
-allocator or stack limit or an operator it does not implement (`BadM`).  Every classic operator
-(`q a i c f r l x = >s sha256 substr strlen concat + - * / divmod > ash lsh logand logior logxor lognot
-not any all`), environment paths and operators the reference treats as unknown are inside.
+allocator or stack limit or an operator it does not implement (`BadM`).
 
 Proof: a simulation between the two op-stack machines (`Lemmas/RefSim.lean`): both are described by
 the same continuation (a list of call frames) in one of two positions; "value produced"
 (`Cons` / `cons`, end of the run), "next operand" (`SwapEval` / `swap; eval`, through `eval_agree`:
-paths by `path_eq`, quotations, operator-call entry with the nil-terminator check) and "apply"
-(`(a P E)`: `apply; eval` against `apply_op`'s immediate `eval_pair`; ordinary operators: the two
-dispatch tables against each other, `dispatch_agree`, where the `ref_op_eq_*` theorems and the
-unknown-operator rule plug in).
+paths by `path_eq`, quotations, operator-call entry with the nil-terminator check, the `((X) …)`
+form) and "apply" (`(a P E)`: `apply; eval` against `apply_op`'s immediate `eval_pair`; ordinary
+operators: the two dispatch tables against each other, `dispatch_agree`, where the `ref_op_eq_*`
+theorems and the unknown-operator rule plug in; the operators of the model do not look at the
+terminator of their argument list, `Lemmas/RefTerm.lean`).
 
-What is missing for the full `StatementFor true`: the `((X) …)` form (needs "operators do not look
-at the terminator of their argument list" for the lenient reading) and softfork guards (opcode 36). -/
-theorem C01_main_core_partial (prog env : Tree) (budget fuel fuel' : Nat) (hb : budget < 2 ^ 64)
+What is missing for the full `StatementFor true`: softfork guards (opcode 36 with a known
+extension: the guard stack on both sides, `exit_guard`, the guard's budget). -/
+theorem C01_main_lenient_partial (prog env : Tree) (budget fuel fuel' : Nat) (hb : budget < 2 ^ 64)
     (ro : Res) (mo : Except Err (Nat × Val × Ctr))
     (hr : Ref.runWith coreAd fuel' prog env (Adapter.u64Budget budget) = some ro)
     (hm : modelRun fuel prog env budget = some mo) : RunOut ro mo :=
   core_run_agree prog env budget fuel fuel' hb ro mo hr hm
+
+/-- the witnesses of finding `C01-lenient-lists` are inside this domain (and agree) -/
+example : Ref.runWith coreAd 100 witness1 (.atom []) (Adapter.u64Budget 0) = some (.ok (189, .atom [])) := by rfl
+example : Ref.runWith coreAd 100 witness2 (.atom []) (Adapter.u64Budget 0) = some (.ok (845, .atom [3])) := by rfl
 
 /-- the domain is not empty: `(+ (q . 2) (* 1 (q . 3)))` in the environment `7` stays inside it and
 evaluates to `23` at cost 1840 -/
